@@ -380,6 +380,17 @@ def gen_topology(rng, n: int, cls: str, noise: float = 0.25) -> dict:
     for _ in range(n):
         nr += rng.choice([1, 1, 1, 2, 3, 7]) if gap else 1
         numbers.append(nr)
+    # "arbitrary" atom numbers need not increase down the file: with probability 0.3 the SAME set of numbers is
+    # dealt to the atoms in another order — a local swap (1,3,2,4: endpoints and count look consecutive), a
+    # reversal or a full shuffle (seed C15-3: consecutive numbering inferred from the first and last number)
+    order_kind = rng.random()
+    if n >= 4 and order_kind < 0.12:
+        i = rng.randrange(1, n - 2)
+        numbers[i], numbers[i + 1] = numbers[i + 1], numbers[i]
+    elif n >= 2 and order_kind < 0.2:
+        numbers.reverse()
+    elif n >= 2 and order_kind < 0.3:
+        rng.shuffle(numbers)
     edges = gen_graph(rng, n, cls)
     molname = rng.choice(["MOL", "CHAIN", "POLY", "X1"])
     resname = rng.choice(["MOL", "RES", "LIG"])
